@@ -101,6 +101,17 @@ def check_case(rng, res):
            if f != "x" and f[0] not in "<>=!"):
         res.count("configurations_with_a_natively_padded_format")
     devs = [classes[k]() for k in ks]
+    if rng.random() < 0.3:
+        # some of the devices have served in a plain slow group before (a
+        # controller that was first tried out in the main process)
+        from ebpfcat.ebpfcat import SimpleEtherCat, SyncGroup
+        old = [d for d in devs if rng.random() < 0.6] or devs[:1]
+        SyncGroup(SimpleEtherCat("vf"), old)
+        for d in old:
+            for n in sorted(type(d).c29_vars):
+                setattr(d, n, rand_value(rng, type(d).c29_vars[n]))
+        desc = dict(desc, served_in_a_slow_group_before=len(old))
+        res.count("devices_that_served_in_a_slow_group_before", len(old))
     if not exchange(rng, res, devs, desc):
         return
     # the same device objects join a second group (a restarted or
